@@ -374,6 +374,20 @@ pub fn failing_doc(rng: &mut Rng) -> (String, &'static str) {
     }
 }
 
+/// Documents which probe for state leaking in from OTHER transforms: they fail (or print
+/// names verbatim) on a fresh context and would succeed / print values if element maps,
+/// the previous element, variables or defaults survived from another document.
+pub fn leak_probe_doc(rng: &mut Rng) -> String {
+    match rng.below(6) {
+        0 => "<svg><rect xy=\"^|h 2\" wh=\"5\"/></svg>".to_string(),
+        1 => format!("<svg><rect xy=\"#e{}|h\" wh=\"2\"/></svg>", rng.below(3)),
+        2 => "<svg><text xy=\"0 0\" text=\"k0=$k0 k1=$k1 m=$m fill=$fill i0=$i0 z=$z\"/></svg>".to_string(),
+        3 => "<svg><reuse href=\"#t0\" size=\"3\" label=\"x\"/></svg>".to_string(),
+        4 => "<svg><rect wh=\"4\" text=\"{{random()}} {{randint(1, 1000000)}}\"/><circle r=\"2\" cxy=\"^@br\"/></svg>".to_string(),
+        _ => "<svg><circle cxy=\"^@t\" r=\"2\"/><rect wh=\"3\"/><rect wh=\"2\"/></svg>".to_string(),
+    }
+}
+
 pub const THEMES: &[&str] = &["default", "bold", "fine", "glass", "light", "dark"];
 
 /// A configuration with limits at or below their defaults.
